@@ -539,6 +539,20 @@ def handwritten_edges(seed, n):
         e = cls([v.id for v in vs], np.eye(1 if name in ('RangeInPlace', 'CopyShiftInPlace') else pd), z if name == 'RangeInPlace' else np.array(z), vs)
         f = _positions_fn(name, z)
         case = {'edge': name, 'kind': kind, 'poses': starts, 'estimate': z}
+        if rng.random() < 0.4:
+            # history that must not matter: the edge was linearised (chi2 / gradient / Hessian, as optimize() does) at ANOTHER state, then the
+            # vertices were given the poses of this case
+            case['history'] = 'calc_chi2_gradient_hessian() at other poses, then the vertices moved here'
+            try:
+                keep = [v.pose for v in vs]
+                for v in vs:
+                    v.pose = v.pose + np.array([rng.gauss(0, 0.5) for _ in range(X.CDIM[kind])])
+                e.calc_chi2_gradient_hessian()
+                for v, p_ in zip(vs, keep):
+                    v.pose = p_
+            except Exception as ex:  # noqa
+                fails.append(dict(case, why='linearising the edge raised %r' % (ex,)))
+                continue
         try:
             before = [np.array(v.pose).tobytes() for v in vs]
             err = [float(x) for x in np.asarray(e.calc_error()).reshape(-1)]
